@@ -13,7 +13,7 @@
 From GV.Model Require Import Ast Spec.
 From GV.Model Require Import Lex ValueParse QueryParse OpParse ClauseParse CnfParse FilterParse ClauseFParse CnfFParse LetParse CallParse FullParse.
 From GV.Proofs Require Import LexProps ValueParseProps ValueSpellProps ValueSpellExample.
-From GV.Proofs Require Import QueryParseProps QuerySpellProps QuerySpellExample ThisProps OpParseProps ClauseParseProps ClauseSpellProps ClauseSpellExample CnfParseProps OpSoundProps ClauseFuelProps CnfSpellProps CnfSpellExample FilterParseProps ClauseFProps CnfFProps LetParseProps CallParseProps FuelMonoProps CallExtendProps FullParseProps FullLinkProps FullCondsProps FullClauseProps.
+From GV.Proofs Require Import QueryParseProps QuerySpellProps QuerySpellExample ThisProps OpParseProps ClauseParseProps ClauseSpellProps ClauseSpellExample CnfParseProps OpSoundProps ClauseFuelProps CnfSpellProps CnfSpellExample FilterParseProps ClauseFProps CnfFProps LetParseProps CallParseProps FuelMonoProps CallExtendProps FullParseProps FullLinkProps FullCondsProps FullClauseProps FullLetProps.
 
 Theorem C14_keyword_tables_are_the_documented_ones :
   set_eqb kw_in_keyword ["in"; "IN"] = true /\ set_eqb kw_keys ["keys"; "KEYS"] = true /\
@@ -438,3 +438,29 @@ Theorem C14_whole_grammar_clause_parser_reads_access_clauses : forall rv n s c r
   forall m, (n <= m)%nat -> xclause rv (S (S (S (S (S m))))) s = POk (clause_tree c) r.
 Proof. exact xclause_reads_access_clause. Qed.
 Print Assumptions C14_whole_grammar_clause_parser_reads_access_clauses.
+
+(* `xassignment`, the assignment parser of the whole-grammar parser: every spelling `let <layout> name <layout> = | := <layout> value`
+   is read as Let name (Lit value) - nothing of the remainder consumed - and `=` and `:=` are one sign *)
+Theorem C14_whole_grammar_reads_every_let_spelling : forall rv w1 name w2 eq w3 t rest,
+  layout w1 -> w1 <> EmptyString -> wf_name name -> layout w2 -> In eq kw_assign -> layout w3 -> wf rv t -> follow t rest ->
+  let text := "let" +++ (w1 +++ (name +++ (w2 +++ (eq +++ (w3 +++ (render t +++ rest)))))) in
+  xassignment rv (S (S (S (S (S (String.length text)))))) text = POk (T "Let" [Leaf name; T "Lit" [lit_tree (denote t)]]) rest.
+Proof. exact xlet_spelling_parses. Qed.
+Print Assumptions C14_whole_grammar_reads_every_let_spelling.
+
+Theorem C14_whole_grammar_let_signs_agree : forall rv w1 name w2 w3 t rest,
+  layout w1 -> w1 <> EmptyString -> wf_name name -> layout w2 -> layout w3 -> wf rv t -> follow t rest ->
+  let a := "let" +++ (w1 +++ (name +++ (w2 +++ ("=" +++ (w3 +++ (render t +++ rest)))))) in
+  let b := "let" +++ (w1 +++ (name +++ (w2 +++ (":=" +++ (w3 +++ (render t +++ rest)))))) in
+  xassignment rv (S (S (S (S (S (String.length a)))))) a = xassignment rv (S (S (S (S (S (String.length b)))))) b.
+Proof. exact xlet_signs_agree. Qed.
+Print Assumptions C14_whole_grammar_let_signs_agree.
+
+(* and with a filter-free %variable query on the right: Let name (Query query) *)
+Theorem C14_whole_grammar_reads_every_let_query_spelling : forall rv w1 name w2 eq w3 v ps rest,
+  layout w1 -> w1 <> EmptyString -> wf_name name -> layout w2 -> In eq kw_assign -> layout w3 -> qwf (mkCQ None (CVar v) ps) -> query_end rest ->
+  let text := "let" +++ (w1 +++ (name +++ (w2 +++ (eq +++ (w3 +++ (qrender (mkCQ None (CVar v) ps) +++ rest)))))) in
+  xassignment rv (S (S (S (S (S (String.length text)))))) text =
+  POk (T "Let" [Leaf name; T "Query" [query_tree (qdenote (mkCQ None (CVar v) ps))]]) rest.
+Proof. exact xlet_query_spelling_parses. Qed.
+Print Assumptions C14_whole_grammar_reads_every_let_query_spelling.
